@@ -1,6 +1,7 @@
 pub mod rng;
 pub mod util;
 pub mod varint;
+pub mod crypto;
 pub mod treehash;
 pub mod pywheel;
 pub mod alloc;
@@ -11,6 +12,7 @@ pub mod classic;
 pub fn run_request(kind: &str, args: &[&str]) -> String {
     let r = std::panic::catch_unwind(|| match kind {
         "VARINT" => varint::run(args),
+        "CRYPTO" => crypto::run(args),
         "HASH" => treehash::run_hash(args),
         "THASH" => treehash::run_thash(args),
         "THASHDAG" => treehash::run_thashdag(args),
@@ -32,6 +34,7 @@ pub fn gen_stream(name: &str, seed: u64, n: usize, tier: &str) -> Vec<String> {
     let mut rng = rng::Rng::new(seed ^ util::fnv(name));
     match name {
         "varint" => varint::generate(&mut rng, n, tier),
+        "crypto" => crypto::generate(&mut rng, n, tier),
         "hash" | "thash" | "thash_stream" => treehash::generate(name, &mut rng, n, tier),
         "alloc" | "alloc_limits" | "alloc_small" | "alloc_ints" => alloc::generate(name, &mut rng, n, tier),
         "classic" => classic::generate(&mut rng, n, tier),
@@ -44,6 +47,7 @@ pub fn run_oracle(name: &str, seed: u64, n: usize, tier: &str) -> util::OracleRe
     let mut rng = rng::Rng::new(seed ^ util::fnv(name) ^ 0x5eed);
     match name {
         "varint" => varint::oracle(&mut rng, n, tier),
+        s if s.starts_with("crypto_") => crypto::oracle(s, &mut rng, n, tier),
         "thash_agree" | "hash_vectors" => treehash::oracle(name, &mut rng, n, tier),
         "alloc_accounting" | "alloc_limits" | "alloc_nodes" => alloc::oracle(name, &mut rng, n, tier),
         "classic" => classic::oracle(&mut rng, n, tier),
